@@ -283,7 +283,7 @@ def run_apply(E, case):
 
 
 # ------------------------------------------------------------------ composite helpers: agg list, ratio, density
-def run_composite(E, case):
+def run_composite(E, case, prop=None):
     """agg([f1, f2]) == the individual calls side by side; ratio == sum / sum; single-key density == 100 * group share (adds up to 100).
     The real methods (agg, ratio, density, sum, size, max, _apply_gb_reduction with margins, add_row_margin for one level) run on a
     directly constructed state and the labelled pandas contract model; the observed-label filter forks."""
@@ -294,8 +294,10 @@ def run_composite(E, case):
     from ..values import total
     t0 = time.time()
     comp, N, G, labels = case["comp"], case["N"], case["G"], case["labels"]
+    prop = prop or PROP
+    mfunc = comp.split("_", 1)[1] if comp.startswith("margin_") else None
     inp = Inputs()
-    d = R.build(case, inp)
+    d = R.build(dict(case, func=mfunc) if mfunc else case, inp)
     inp.pre.extend(ASM.state_invariant(case, d["codes"]))
     dt = real_np.dtype("float64")
     if comp == "ratio":
@@ -314,10 +316,10 @@ def run_composite(E, case):
                 return "ok", gb.ratio(arrs["values"], A(d["values2"], dt).tag("input:values"), mask=arrs["mask"])
             if comp == "density":
                 return "ok", gb.density(arrs["values"], mask=arrs["mask"])
-            if comp == "margin_sum":
-                return "ok", gb.sum(arrs["values"], mask=arrs["mask"], margins=True)
-            if comp == "margin_mean":
-                return "ok", gb.mean(arrs["values"], mask=arrs["mask"], margins=True)
+            if mfunc == "size":
+                return "ok", gb.size(mask=arrs["mask"], margins=True)
+            if mfunc:
+                return "ok", getattr(gb, mfunc)(arrs["values"], mask=arrs["mask"], margins=True)
             return "ok", gb.density(mask=arrs["mask"])
         except (Unsupported, OutsideModel):
             raise
@@ -375,7 +377,7 @@ def run_composite(E, case):
                     for lab, cond in R.spec_bads(sub, d, res, None):
                         if f"[g={g}]" in lab:
                             bads.append((f"agg list column {lab} equals the individual call", b_and(pcz, cond)))
-                elif name in ("margin_sum", "margin_mean"):
+                elif name.startswith("margin_"):
                     sub = dict(case, func=name.split("_")[1])
                     res = [0] * G
                     res[g] = r
@@ -392,20 +394,17 @@ def run_composite(E, case):
                     exp = fdiv(100 * gsum(vals, g, size), tot)
                     bads.append((f"density[{labels[g]!r}] == 100 * group total / grand total", b_and(pcz, b_not(R.approx_same(r, exp)))))
             extra = [lab for lab in got if not any(lab == l2 and type(lab) is type(l2) for l2 in labels)]
-            if name in ("margin_sum", "margin_mean"):
-                # the single-key margin: one extra row 'All' = the same aggregation over ALL selected rows (mean: total sum / total count)
+            if name.startswith("margin_"):
+                # the single-key margin: one extra row 'All' = the same aggregation over ALL selected rows of all groups
+                # (mean: total sum / total count, not a mean of means; min/max: the extremes)
                 if extra != ["All"]:
                     bads.append((f"{name}: exactly one margin row 'All' expected, extra labels {extra!r}", pcz))
                 else:
                     r_all = cells[got.index("All")]
-                    vals = d["values"]
-                    tot = total([gsum(vals, h) for h in range(G)], 0)
-                    if name == "margin_sum":
-                        exp_all = tot
-                    else:
-                        cnt = total([total([ite(b_and(m, b_not(is_null_val(v, dt))), 1, 0) for m, v in zip(member[h], vals)], 0) for h in range(G)], 0)
-                        exp_all = fdiv(tot, cnt)
-                    bads.append((f"{name}: the 'All' row equals the aggregation over all selected rows", b_and(pcz, b_not(R.approx_same(r_all, exp_all)))))
+                    one = dict(case, func=mfunc, G=1)
+                    allcodes = [ite(c >= 0, 0, -1) if is_sym(c) else (0 if c >= 0 else -1) for c in d["codes"]]
+                    for lab, cond in R.spec_bads(one, dict(d, codes=allcodes), [r_all], None):
+                        bads.append((f"{name}: the 'All' row equals the aggregation over all selected rows ({lab})", b_and(pcz, cond)))
                 extra = []
             if extra:
                 bads.append((f"{name}: unexpected labels {extra!r}", pcz))
@@ -414,13 +413,26 @@ def run_composite(E, case):
          "obligations": dec.obligations, "failed_obligations": dec.failed_obligations, "witnesses": dec.witnesses, "candidates": [],
          "encoded": sorted(E.encoded), "paths": len(paths)}
     if dec.verdict == "sat":
-        r["candidates"].append({"signature": f"{PROP}:composite:{comp}:{case['state']}:mask={case['mask']['kind'] != 'none'}", "case": case,
+        r["candidates"].append({"signature": f"{prop}:composite:{comp}:{case['state']}:mask={case['mask']['kind'] != 'none'}", "case": case,
                                 "inputs": jsonable(dec.model), "kind": "property", "labels": dec.which[:4]})
     if dec.failed_obligations:
         r["verdict"] = "sat"
-        r["candidates"].append({"signature": f"{PROP}:obligation:composite:{comp}", "case": case, "inputs": jsonable(dec.ob_model), "kind": "obligation",
+        r["candidates"].append({"signature": f"{prop}:obligation:composite:{comp}", "case": case, "inputs": jsonable(dec.ob_model), "kind": "obligation",
                                 "labels": [f"{a}@{b}" for a, b in dec.failed_obligations[:4]]})
     return r
+
+
+def _py_reduce(func, xs):
+    ok = [float(x) for x in xs if x == x]
+    if func == "size":
+        return float(len(xs))
+    if func == "count":
+        return float(len(ok))
+    if func == "sum":
+        return float(sum(ok))
+    if not ok:
+        return float("nan")
+    return {"mean": sum(ok) / len(ok), "min": min(ok), "max": max(ok)}[func]
 
 
 def replay_composite(case, conc):
@@ -431,7 +443,7 @@ def replay_composite(case, conc):
     conc = fix_nans(conc)
     comp, N, G, labels = case["comp"], case["N"], case["G"], case["labels"]
     codes = [int(x) for x in conc["k"]]
-    v = R.np_values(to_float_cells(conc["v"]), "float64")
+    v = R.np_values(to_float_cells(conc["v"]), "float64") if "v" in conc else real_np.zeros(N)
     mask = real_np.array(conc["m"], dtype=bool) if "m" in conc else None
     if case["state"] == "categorical":
         keys = pd.Categorical.from_codes(codes, categories=labels)
@@ -457,10 +469,11 @@ def replay_composite(case, conc):
                 out = gb.ratio(v, w, mask=mask)
             elif comp == "density":
                 out = gb.density(v, mask=mask)
-            elif comp in ("margin_sum", "margin_mean"):
-                out = gb.sum(v, mask=mask, margins=True) if comp == "margin_sum" else gb.mean(v, mask=mask, margins=True)
-                allrows = [i for i in range(N) if sel[i] and v[i] == v[i]]
-                exp_all = float(real_np.sum(v[allrows])) if comp == "margin_sum" else (float(real_np.mean(v[allrows])) if allrows else float("nan"))
+            elif comp.startswith("margin_"):
+                mf = comp.split("_", 1)[1]
+                out = gb.size(mask=mask, margins=True) if mf == "size" else getattr(gb, mf)(v, mask=mask, margins=True)
+                allsel = [i for i in range(N) if sel[i]]
+                exp_all = _py_reduce(mf, [v[i] for i in allsel] if mf != "size" else allsel)
                 if "All" not in out.index or not approx_same(float(out.loc["All"]), exp_all):
                     problems.append(f"'All' row {out.get('All')!r}, expected {exp_all!r}")
             else:
@@ -474,9 +487,9 @@ def replay_composite(case, conc):
                 if not rows:
                     continue
                 got = float(out.loc[listed[0]])
-                if comp in ("margin_sum", "margin_mean"):
-                    ok = [x for x in v[rows] if x == x]
-                    exp = (float(sum(ok)) if comp == "margin_sum" else (float(sum(ok)) / len(ok) if ok else float("nan")))
+                if comp.startswith("margin_"):
+                    mf = comp.split("_", 1)[1]
+                    exp = _py_reduce(mf, [v[i] for i in rows] if mf != "size" else rows)
                 elif comp == "ratio":
                     exp = float(real_np.nansum(v[rows])) / float(real_np.nansum(w[rows])) if float(real_np.nansum(w[rows])) != 0 else None
                 elif comp == "density":
